@@ -311,6 +311,7 @@ class _Ctx:
         self.cond_env: dict[str, list] = {}       # name -> [(cond, (bits, signed))]
         self.fmt_cond_env: dict[str, list] = {}   # name -> [(cond, struct format string)]
         self.zero_when: dict[str, tuple] = {}     # count name -> (cond, zero on the then branch?)
+        self.struct_vars: dict[str, str] = {}     # name -> format of a struct.Struct object
         args = [a.arg for a in f.node.args.args]
         self.params = args
         # bit readers/writers passed in as parameters
@@ -390,6 +391,7 @@ class _Ctx:
             return self.assign(st)
         if isinstance(st, ast.AnnAssign) and st.value is not None:
             fake = ast.Assign(targets=[st.target], value=st.value, lineno=st.lineno)
+            fake._orig = st
             return self.assign(fake)
         if isinstance(st, ast.AugAssign):
             return self.expr_io(st.value, None, st.lineno)
@@ -496,6 +498,12 @@ class _Ctx:
                 recv = norm(v.func.value) if isinstance(v.func, ast.Attribute) else ''
                 (self.bits_vars if self.is_bits(recv) else self.byte_vars).add(t.id)
                 return []
+        if isinstance(t, ast.Name):
+            self.struct_vars.pop(t.id, None)
+            if isinstance(v, ast.Call) and (call_name(v) or '').split('.')[-1] == 'Struct' and len(v.args) == 1 \
+                    and isinstance(v.args[0], ast.Constant) and isinstance(v.args[0].value, str):
+                self.struct_vars[t.id] = v.args[0].value
+                return []
         # width variable
         if isinstance(t, ast.Name) and isinstance(v, ast.Constant) and isinstance(v.value, str) \
                 and v.value in CODE_BITS:
@@ -512,8 +520,9 @@ class _Ctx:
         # guard aliases: flags = trun["flags"] ; subsample_encryption = (flags & K) == K
         # (only names assigned exactly once, at the top level of the method)
         if isinstance(t, ast.Name) and not self._has_io(v):
+            orig = getattr(st, '_orig', st)
             if self._assign_count(t.id) == 1 and t.id not in self.params \
-                    and (st in self.f.node.body or self._uses_follow(st, t.id)):
+                    and (orig in self.f.node.body or self._uses_follow(orig, t.id)):
                 self.aliases[t.id] = v
             return []
         name = None
@@ -574,6 +583,16 @@ class _Ctx:
                 return []
             return self._guarded_loop(e.generators[0].iter,
                                       Loop(self._loop_norm(norm(e.generators[0].iter)), body, line))
+        # xs.extend(read(..) for _ in range(n)): a comprehension with I/O as an argument
+        comps = [n for n in ast.walk(e) if isinstance(n, (ast.ListComp, ast.GeneratorExp)) and n is not e
+                 and len(n.generators) == 1 and not n.generators[0].ifs and self._has_io(n.elt)
+                 and not self._has_io(n.generators[0].iter)]
+        if len(comps) == 1:
+            inside = {id(x) for x in ast.walk(comps[0])}
+            others = [n for n in ast.walk(e) if isinstance(n, ast.Call) and id(n) not in inside and self._has_io(n)
+                      and not any(x is comps[0] for x in ast.walk(n))]
+            if not others:
+                return self.expr_io(comps[0], name, line)
         calls = [n for n in ast.walk(e) if isinstance(n, ast.Call)]
         # innermost-first order == source order for our idioms
         handled: set[int] = set()
@@ -607,6 +626,12 @@ class _Ctx:
         m = fn.attr
         args = c.args
         kw = {k.arg: k.value for k in c.keywords}
+        # fmt = struct.Struct('>I') ; fmt.unpack(src.read(4))
+        if m == 'unpack' and isinstance(fn.value, ast.Name) and fn.value.id in self.struct_vars and len(args) == 1:
+            for sub in ast.walk(args[0]):
+                if isinstance(sub, ast.Call):
+                    handled.add(id(sub))
+            return fmt_items(self.struct_vars[fn.value.id], [name], line)
         if self.side == 'parse':
             if m in ('read', 'get') and len(args) >= 2 and isinstance(args[1], ast.Constant) \
                     and isinstance(args[1].value, str):
@@ -927,6 +952,21 @@ def canon(tree: list) -> list:
             continue
         then, orelse = canon(n.then), canon(n.orelse)
         if _same_list(then, orelse):
+            out.extend(then)
+            continue
+        # if xs: for x in xs: ..   - an empty sequence makes no iteration, the guard adds nothing
+        def all_looped(nodes: list, over: str) -> bool:
+            for x in nodes:
+                if isinstance(x, Loop):
+                    if x.over != over:
+                        return False
+                elif isinstance(x, If):
+                    if not (all_looped(x.then, over) and all_looped(x.orelse, over)):
+                        return False
+                else:
+                    return False
+            return True
+        if not orelse and then and all_looped(then, n.cond):
             out.extend(then)
             continue
         # hoist a common prefix / suffix of equal width (if d is None: write(I, 0) else write(I, len))
